@@ -22,6 +22,7 @@ func init() {
 			Rule: "for every script of a family (variables set before and after jumps, visited_count of every node shown in lines, option groups, a command that never completes, tracking: never nodes, a host-populated storer and a storer empty at creation, ends), every path of an original runner up to the save bound, every step of it as save point (Snapshot), optional host write, every continuation of the original up to a bound; " +
 				"every receiving runner (the original itself, or a fresh runner of the same script driven along every path up to a bound: fresh, mid-node, waiting for a choice, waiting for a command, ended; with optional host write), optional RestoreAt of a snapshot naming an unknown node first, then RestoreAt(snapshot), optional second runner restored from the same snapshot and stepped alternately, every continuation path up to a bound, optional second restore of the same snapshot; " +
 				"at most one host write between two steps before the save point; receivers that hold the snapshot's variables under another type with the same display form; HS: snapshots built by the host (every node x variables nil / empty / {x} x visit counts nil / empty / {A:2}) restored into a runner in every state and continued along every path; " +
+				"every snapshot is taken twice and the second value overwritten by the host at once; every restore is given a copy of the snapshot which the host overwrites as soon as RestoreAt has returned (a snapshot is a self-contained value in both directions); " +
 				"oracle on every transition: elements and storer contents equal those of the reference interpreter restarted from its node-entry checkpoint; every snapshot value held is deep-equal to the frozen copy taken when it was made and to the model checkpoint (nil = empty map); a snapshot taken right after the restore equals the restored one; the unknown-node restore fails and leaves the reflective dump of runner and storer unchanged; " +
 				"a case is one (script, original path, save point, receiver state, continuation); non-trivial = the save point is after at least one jump or the receiver is not fresh",
 			StatesMean:  "(script, history of operations) prefixes visited on the real runners; transitions = real Next / Snapshot / RestoreAt calls compared with the model",
@@ -245,7 +246,67 @@ func (x *c07Runner) snapshot() (*c07Snap, string) {
 	if d := snapDiff(s, c2); d != "" {
 		return nil, fmt.Sprintf("%s.Snapshot(): %s", x.name, d)
 	}
-	return &c07Snap{real: s, cp: c2, frozen: dump.String(s), from: x.name}, ""
+	// a second snapshot value of the same moment, overwritten by the host at once: neither the runner nor the first
+	// value may notice (every later comparison would)
+	var s2 *ysgo.Snapshot
+	if p := guard(func() { s2 = x.r.DR.Snapshot() }); p != nil {
+		return nil, fmt.Sprintf("%s.Snapshot (second call) panicked: %v", x.name, p)
+	}
+	out := &c07Snap{real: s, cp: c2, frozen: dump.String(s), from: x.name}
+	scribble(s2)
+	if fd := out.checkFrozen("when the host overwrote another snapshot value taken at the same moment"); fd != "" {
+		return nil, fd
+	}
+	return out, ""
+}
+
+// scribble overwrites a snapshot value the host owns: every entry replaced, removed or added. A snapshot is a
+// self-contained value in both directions: what the host does to one it holds changes no runner.
+func scribble(s *ysgo.Snapshot) {
+	if s == nil {
+		return
+	}
+	for k := range s.Variables {
+		delete(s.Variables, k)
+	}
+	if s.Variables != nil {
+		s.Variables["scribbled"] = *variable.NewNumber(424242)
+		s.Variables["x"] = *variable.NewString("scribbled")
+	}
+	for k := range s.VisitedNodes {
+		s.VisitedNodes[k] = 99
+	}
+	if s.VisitedNodes != nil {
+		s.VisitedNodes["A"], s.VisitedNodes["B"], s.VisitedNodes["N1"] = 77, 78, 79
+	}
+	s.CurrentNode = "Scribbled"
+}
+
+// cloneSnapshot copies a snapshot value (maps and values).
+func cloneSnapshot(s *ysgo.Snapshot) *ysgo.Snapshot {
+	c := &ysgo.Snapshot{CurrentNode: s.CurrentNode}
+	if s.Variables != nil {
+		c.Variables = map[string]variable.Value{}
+		for k, v := range s.Variables {
+			var nv variable.Value
+			switch {
+			case v.Number != nil:
+				nv = *variable.NewNumber(*v.Number)
+			case v.Boolean != nil:
+				nv = *variable.NewBoolean(*v.Boolean)
+			case v.String != nil:
+				nv = *variable.NewString(*v.String)
+			}
+			c.Variables[k] = nv
+		}
+	}
+	if s.VisitedNodes != nil {
+		c.VisitedNodes = map[string]int{}
+		for k, v := range s.VisitedNodes {
+			c.VisitedNodes[k] = v
+		}
+	}
+	return c
 }
 
 func (s *c07Snap) checkFrozen(when string) string {
@@ -257,10 +318,14 @@ func (s *c07Snap) checkFrozen(when string) string {
 
 func (x *c07Runner) restore(s *c07Snap) string {
 	var err error
-	if p := guard(func() { err = x.r.DR.RestoreAt(s.real) }); p != nil {
+	// the runner is given a copy of the snapshot value, which the host overwrites as soon as RestoreAt has returned:
+	// the restored runner must not notice (it would in every later comparison)
+	given := cloneSnapshot(s.real)
+	if p := guard(func() { err = x.r.DR.RestoreAt(given) }); p != nil {
 		return fmt.Sprintf("%s.RestoreAt panicked: %v", x.name, p)
 	}
-	x.trace = append(x.trace, x.name+".RestoreAt(snapshot of "+s.from+")")
+	scribble(given)
+	x.trace = append(x.trace, x.name+".RestoreAt(copy of the snapshot of "+s.from+"), then the host overwrites that copy")
 	if err != nil {
 		return fmt.Sprintf("%s.RestoreAt of a snapshot of the same script failed: %v", x.name, err)
 	}
